@@ -187,7 +187,7 @@ def gen_stage_a(c, cfgs, scale):
         oid = f"o{ci}"
         add(cfg.create(oid), {"op": "create", "cfg": ci})
         now = rng.choice((0, 1000, 1700000000, 1 << 33))
-        sizes = list(range(0, 9)) + [rng.randrange(9, 64) for _ in range(4)] + [rng.randrange(64, 1500) for _ in range(2 * scale)]
+        sizes = list(range(0, 37)) + [rng.randrange(37, 64) for _ in range(2)] + [rng.randrange(64, 1500) for _ in range(2 * scale)]
         if ci % 6 == 0:
             sizes.append(rng.choice((4000, 65535, 65536)) if c.tier == "thorough" or ci % 12 == 0 else 3000)
         for k, sz in enumerate(sizes):
@@ -206,6 +206,14 @@ def gen_stage_a(c, cfgs, scale):
                 p = rbytes(rng, rng.choice((0, 1, 11, 12, 13, 27, 28, 29, 100)))
                 add(f"enc {oid} {hexs(p)}", {"op": "enc", "cfg": ci, "plain": p})
         add(f"saveon {oid} {now} {now + 5} 6162", {"op": "saveon", "cfg": ci})
+        if cfg.is_aes:
+            # the same payload and expiry saved twice by one object and once by a fresh one: an encrypting back-end
+            # must not reveal that the payloads are equal (all three cookies, and their first cipher blocks, differ)
+            same = rbytes(rng, rng.choice((0, 5, 40)))
+            for k, o2 in enumerate((f"q{ci}a", f"q{ci}a", f"q{ci}b")):
+                if k != 1:
+                    add(cfg.create(o2), {"op": "create", "cfg": ci})
+                add(f"save {o2} {now} {now + 60} {hexs(same)}", {"op": "save", "cfg": ci, "now": now, "t": now + 60, "data": same, "same": ci})
     return lines, desc
 
 
@@ -703,6 +711,21 @@ def main():
             jlines.append(f"JI {cfgs[d['cfg']].kid} {hexs(b64d(ck[1:]))} {d['t']} {hexs(d['data'])}")
         elif d["op"] == "enc" and o.startswith("ok "):
             ciphers.append({"cfg": d["cfg"], "cipher": unhex(o[3:]), "plain": d["plain"]})
+    groups = {}
+    for it in issued:
+        if "same" in it:
+            groups.setdefault(it["same"], []).append(it)
+    neq = 0
+    for ci, its in groups.items():
+        neq += 1
+        cks = [it["cookie"] for it in its]
+        firsts = [b64d(ck[1:])[:16] for ck in cks]
+        if len(set(cks)) != len(cks) or len(set(firsts)) != len(firsts):
+            bad.append(("an encrypting back-end produced equal cookies (or equal first cipher blocks) for equal payloads: it reveals whether two payloads are equal",
+                        {"lines": [cfgs[ci].create(f"q{ci}a"), f"save q{ci}a {its[0]['now']} {its[0]['t']} {hexs(its[0]['data'])}", f"save q{ci}a {its[0]['now']} {its[0]['t']} {hexs(its[0]['data'])}",
+                                   cfgs[ci].create(f"q{ci}b"), f"save q{ci}b {its[0]['now']} {its[0]['t']} {hexs(its[0]['data'])}"],
+                         "cookies": [hexs(x) for x in cks]}))
+    c.extra_cov["equal_payload_distinct_cookie_groups"] = neq
     # ---------------- stage B: present mutated cookies / cipher texts
     lb, db = gen_stage_b(c, cfgs, issued, scale)
     ib, mb = run_stage("load-mutations", lb, db)
